@@ -62,6 +62,9 @@ type hOp struct {
 	V    uint64 `json:"v,omitempty"`
 	Amt  string `json:"amt,omitempty"`
 	Kind int    `json:"kind,omitempty"`
+	// parameter-update ops of the restart driver ("params"): module and the fields to override
+	Mod string          `json:"mod,omitempty"`
+	P   json.RawMessage `json:"p,omitempty"`
 }
 
 type hBlock struct {
@@ -96,6 +99,7 @@ type hist struct {
 	log       []string // per op: "op:ok" / "op:err"
 	errs      []string
 	gasUsed   int64
+	pw        []string // restart driver: parameter updates (Coq terms) that reached a handler in the open block
 }
 
 var e18big = new(big.Int).Exp(big.NewInt(10), big.NewInt(18), nil)
